@@ -289,7 +289,7 @@ pub enum Relation {
 /// Add environment bodies placed relative to where the robot's bodies are at `anchor`.
 /// Returns the relation used for each body (reach statistics).
 pub fn add_environment(w: &mut Rng, cell: &mut CellSpec, anchor: &[f64; 6], k: &CellKnobs) -> Vec<Relation> {
-    let n_env = w.below(if k.sparse { k.max_env.min(2) } else { k.max_env } + 1);
+    let n_env = if k.max_env > 6 { w.range_usize(6, k.max_env) } else { w.below(if k.sparse { k.max_env.min(2) } else { k.max_env } + 1) };
     let mut rels = Vec::new();
     if n_env == 0 {
         return rels;
